@@ -16,6 +16,12 @@ CLAIMED = {
    design_ref='DESIGN.md §3 C16',
    note='Seeded sampling of (hash seed, heap layout, schedule); a clean batch is evidence, not proof. Asynchronous exceptions in the host are not injected. A query that swallowed an injected helper exception (did not raise) makes the rest of that Script inconclusive. RecursionError results are inconclusive (no typeshed in this sandbox).',
    technique='deterministic simulation: seeded hash-seed x allocator x GC x query-schedule exploration with injected failing requests, cross-run equality oracle'),
+ 'C08': dict(
+   category='exploration',
+   text='Seeded edit histories (line/char insert/delete/replace, indent/dedent, paste from project files, undo, char-by-char typing, callee-signature edits that keep the call site, moving/renaming definitions) over 1-3 buffers (pathed and path-less, interleaved) in ONE long-lived subject whose clock is simulated (advances from 1 ms to 1 day and backwards, crossing the 3 s signature cache, the 10 min parso eviction cutoff and the 10 min environment cache) and whose cache knobs are drawn per run (parso size trigger 1/2/8/600 so the eviction path runs, signature validity 0/3/1e6, fast_parser on/off), with clear_time_caches, Project.search and GC ops in between. After every edit a new Script answers 4-10 probes at positions sampled from the current text; oracle = a pristine process (empty caches, new helper) asked the same probes on the same text. The precondition (incremental tree == from-scratch parse) is checked at every step.',
+   design_ref='DESIGN.md §3 C08',
+   note='Seeded sampling of histories, not enumeration. Buffers never import unsaved open buffers. Per-probe comparison as sorted multisets; RecursionError inconclusive; a mismatch is re-checked against a second oracle process under another hash seed and dropped as oracle-unstable if the oracle disagrees with itself.',
+   technique='deterministic simulation: seeded edit-history + simulated clock + cache-knob buggify in a long-lived process, pristine-process reference oracle per step'),
 }
 
 NA = {
@@ -35,7 +41,6 @@ NA = {
  'C20': 'pure function of constructor arguments; save/load is two deterministic steps with no crash claim',
 }
 PENDING = {
- 'C08': 'check not built yet (planned: edit-history simulation, see DESIGN.md §3)',
  'C09': 'check not built yet (planned: file-system-history simulation, see DESIGN.md §3)',
  'C12': 'check not built yet (planned: sentinel/host/helper state conservation, see DESIGN.md §3)',
  'C07': 'check not built yet (planned: disk-effect clauses, see DESIGN.md §3)',
